@@ -41,4 +41,5 @@ CaseOf(n) ==
       x0 |-> Table(n, cfg, FALSE), x1 |-> Table(n, cfg, TRUE)]
 
 Emit == IF Selected THEN PrintT(ToJson(CaseOf(name))) ELSE TRUE
+
 =============================================================================
